@@ -29,14 +29,18 @@ func dirName(d int) string {
 
 // edit is ONE modification of the traffic.
 type edit struct {
-	kind string // none flip drop dup swap trunc inject
+	kind string // none flip setlen splice drop dup swap trunc inject
 	dir  int
-	rec  int    // record index in direction dir (inject: insert before this record; == n: after the last)
-	off  int    // flip / trunc: byte offset inside the record (header included)
-	mask byte   // flip
-	inj  string // inject: alertw alertf hs0 ccs app
-	w    int    // setlen: width of the length field starting at off
-	op   string // setlen: p1 m1 p2 m2 zero max
+	rec  int      // record index in direction dir (inject: insert before this record; == n: after the last)
+	off  int      // flip / trunc: byte offset inside the record (header included)
+	mask byte     // flip
+	inj  string   // inject: alertw alertf hs0 ccs app
+	w    int      // setlen: width of the length field starting at off
+	op   string   // setlen: p1 m1 p2 m2 zero max; splice: what the splice does (addext:last, grow:session_id, …)
+	m    int      // splice: index of the handshake message inside the record
+	del  int      // splice: bytes removed at off
+	ins  []byte   // splice: bytes inserted at off
+	fix  []lenRef // splice: length fields adjusted by len(ins)-del
 }
 
 // applySetLen rewrites the big-endian length field rec[off:off+w]; ok=false when the field is
@@ -105,6 +109,7 @@ type mnet struct {
 	lenNew  int
 	target  []byte // the honest record the edit was applied to (copy)
 	hdrLen  int
+	ecdhe   bool // key-exchange layout of the suite (for the field map of a splice)
 }
 
 func newNet(ed edit) *mnet {
@@ -315,6 +320,13 @@ func (n *mnet) route(d, idx int, rec []byte) {
 		cp, old, nw, ok := applySetLen(rec, ed.off, ed.w, ed.op)
 		n.applied = ok
 		n.lenOld, n.lenNew = old, nw
+		put(cp)
+	case "splice":
+		cp, ok := rec, false
+		if resolveSplice(rec, false, protectedAt(n.seen[d], idx), n.ecdhe, ed) {
+			cp, ok = applySplice(rec, ed)
+		}
+		n.applied = ok
 		put(cp)
 	case "drop":
 	case "dup":
